@@ -177,7 +177,11 @@ def run_unit(u):
                     lhs.append(sum(Fp[i, :, a, b]))
                     lhs.append(sum(Fp[:, i, a, b]))
         v, model, idx = assert_equal(res, "python_fallback_sum_rules", symnp.unwrap(symnp.symarray(lhs)), [0.0] * len(lhs), A, tol=TOL)
-        _verdict(res, u, "python_fallback_sum_rules", v, model, idx, xs, ph, maps, level, replay=False)
+        if v == "sat":
+            ok2, what = replay_py_fallback(n, level, harness.model_floats(model, xs) if model is not None else None, len(xs))
+            (res.violations if ok2 else res.unconfirmed).append({"key": "%s:python_fallback_sum_rules:%s/%s/level%d" % (PID, u[0], u[1], u[2]), "what": what, "replay": {"unit": list(u)}})
+        else:
+            _verdict(res, u, "python_fallback_sum_rules", v, model, idx, xs, ph, maps, level, replay=False)
         # ---------------- H: space-group symmetriser (Python) == independent space-group average (harness oracle)
         if n_s <= 4:
             from checks.dmcommon import DMCase, space_group_ops, sg_average, selftest_projector
@@ -223,6 +227,20 @@ def _verdict(res, u, sub, verdict, model, idx, xs, ph, maps, level, sym_input=Fa
                                "replay": {"unit": list(u), "sub": sub, "x": x.tolist()}})
     else:
         res.unconfirmed.append({"key": key, "what": "model does not reproduce on compiled code (diff %.3g)" % mag})
+
+
+@symnp.outside_session
+def replay_py_fallback(n, level, x, nx):
+    """concrete: set_translational_invariance / set_permutation_symmetry (Python) leave the sum rules satisfied"""
+    import phonopy.harmonic.force_constants as fcm
+    rng = np.random.default_rng(16)
+    F = rng.uniform(-1, 1, (n, n, 3, 3))
+    for _ in range(level):
+        fcm.set_translational_invariance(F)
+        fcm.set_permutation_symmetry(F)
+    fcm.set_translational_invariance(F)
+    d = max(float(np.abs(F.sum(axis=0)).max()), float(np.abs(F.sum(axis=1)).max()))
+    return d > 1e-9, "after the Python translational-invariance / permutation-symmetry routines the force constants violate the sum rules by %.3g" % d
 
 
 @symnp.outside_session
